@@ -13,9 +13,6 @@ fn repr_add_large_small<const B: Word>(
         lhs.exponent >= rhs.exponent,
         add_fits(B as int, self.precision, lhs.significand.v(), rhs.significand.v()),
         add_ranges(B as int, self.precision, lhs.significand.v(), lhs.exponent as int, rhs.significand.v(), rhs.exponent as int),
-        // KNOWN DEFECT (see add_defect_region): excluded, delete this line once the sentinel is made smaller than 1/2
-        !add_defect_region(R::md(), B as int, self.precision, lhs.significand.v(), lhs.exponent as int,
-            true_sub(lhs.significand.v(), rhs_sign, rhs.significand.v()), rhs.significand.v(), rhs.exponent as int),
     ensures
         add_post(R::md(), B as int, self.precision, lhs.significand.v(), lhs.exponent as int, rhs_sign,
             rhs.significand.v(), rhs.exponent as int, ret),
@@ -63,7 +60,7 @@ fn repr_add_large_small<const B: Word>(
             let low_prec = if ldigits >= rnd_precision {
                 2
             } else {
-                (rnd_precision - ldigits) + 1
+                (rnd_precision - ldigits) + 2
             }; // low_prec >= 2
             low = (rhs_sign * rhs.significand.signum(), low_prec);
             /*@ proof {
@@ -175,7 +172,7 @@ fn repr_add_large_small<const B: Word>(
                 } else {
                     // the sentinel rounds like the true sum
                     let ld = ndigits(b, Sl) as int;
-                    assert(j1 == (if ld < rp { 1int } else { 2int }));
+                    assert(j1 == 2);
                     lemma_ipow_mono(b, ndigits(b, Sr), rdigits_est as nat);
                     lemma_ipow_small(b);
                     lemma_far_result::<B>(R::md(), b, Sl, low.0.v(), sr, k as nat, j1 as nat, (El - Er) as nat, rdigits_est as nat, El - k, ret);
